@@ -264,7 +264,9 @@ def feed(gw, line):
     return gw.logic(line)
 
 
-def gateway_state(rng, version, n):
+def gateway_state(rng, version, n, audit=None):
+    """`audit` collects (node, child, value type, value, persisted projection before, after) whenever a desired
+    value set by the controller for a sleeping node changed what a save would write."""
     gw = make_gateway(version)
     for line in history_lines(rng, version, n):
         try:
@@ -278,11 +280,17 @@ def gateway_state(rng, version, n):
     for nid, s in gw.sensors.items():
         if s.new_state and rng.random() < 0.8:
             for cid, c in s.children.items():
-                for vt in list(c.values)[:1]:
+                # a value type the node has reported, and some it has not reported (yet)
+                for vt in list(c.values)[:1] + [t for t in (0, 2, 3, 24, 47) if t not in c.values]:
+                    value = rng.choice(["1", "0", "x"])
+                    before = project_reset({nid: s})
                     try:
-                        gw.set_child_value(nid, cid, vt, rng.choice(["1", "0", "x"]))
+                        gw.set_child_value(nid, cid, vt, value)
                     except Exception:  # noqa: BLE001
                         pass
+                    after = project_reset({nid: s})
+                    if audit is not None and before != after:
+                        audit.append((nid, cid, vt, value, before, after))
     return gw.sensors
 
 
